@@ -64,7 +64,7 @@ def _case(arg):
 
     out = dict(hits={}, viol=[], inc=[], ok=0)
     junction = ["exact", "within", "outside", "exact", "within-user-rtol", "nf-mismatch", "exact", "outside-user-rtol"][i % 8]
-    errpat = ["both", "both", "none", "ini-only", "fin-only", "both"][(i // 8) % 6]  # independent of the junction variant
+    errpat = ["both", "fin-mixed", "none", "ini-only", "fin-only", "both", "fin-mixed"][(i // 8) % 7]  # independent of the junction variant
     nx = int(rng.integers(2, 6))
     xg = synth_f.make_xgrid(rng, nx, True)
     mu0 = float(rng.uniform(1.0, 2.0))
@@ -80,6 +80,15 @@ def _case(arg):
     if n_ini_extra > 0 and rng.random() < 0.4:  # a target of the second that already exists in the first
         overlap = [ep for ep in ini_mugrid if ep != (mu1, nf1)][0]
         fin_mugrid.append(overlap)
+    twin = None
+    if n_ini_extra > 0 and rng.random() < 0.35:
+        # a target of the second at the *scale* of a point the first already holds, but with another nf: a new target
+        base = [ep for ep in ini_mugrid if ep != (mu1, nf1)][-1]
+        twin = (base[0], base[1] + 1 if base[1] < 6 else base[1] - 1)
+        if twin not in ini_mugrid and twin not in fin_mugrid:
+            fin_mugrid.append(twin)
+        else:
+            twin = None
     rng.shuffle(fin_mugrid)
     delta = 0.0
     kwargs = {}
@@ -107,8 +116,15 @@ def _case(arg):
     ini_eg = [(m**2, nf) for m, nf in ini_mugrid]  # as OperatorCard.evolgrid does
     fin_eg = [(m**2, nf) for m, nf in fin_mugrid]
     J = (mu1**2, nf1)
-    ini_t = synth_f.random_tensors(rng, ini_eg, nx, with_err=errpat in ("both", "ini-only"), err_scale=1e-2)
-    fin_t = synth_f.random_tensors(rng, fin_eg, nx, with_err=errpat in ("both", "fin-only"), err_scale=1e-2)
+    ini_t = synth_f.random_tensors(rng, ini_eg, nx, with_err=errpat in ("both", "ini-only", "fin-mixed"), err_scale=1e-2)
+    fin_t = synth_f.random_tensors(rng, fin_eg, nx, with_err=errpat in ("both", "fin-only", "fin-mixed"), err_scale=1e-2)
+    if errpat == "fin-mixed":
+        # errors on every other target of the second archive (in its own order), starting with or without one
+        start = int(rng.integers(2))
+        for j, ep_ in enumerate(fin_eg):
+            if (j + start) % 2:
+                kk = (float(ep_[0]), int(ep_[1]))
+                fin_t[kk] = (fin_t[kk][0], None)
     # signed errors, so that the absolute values of the rule are observable
     for t in (ini_t, fin_t):
         for k, (o, e) in list(t.items()):
@@ -121,7 +137,7 @@ def _case(arg):
     key = (junction, errpat, nx, len(ini_mugrid), len(fin_mugrid), overlap is not None, i)
     out["key"] = key
     wit = dict(index=i, junction=junction, errpat=errpat, nx=nx, mu0=mu0, mu1=mu1, nf1=nf1, delta=delta, kwargs=kwargs,
-               ini_mugrid=ini_mugrid, fin_mugrid=fin_mugrid, overlap=overlap)
+               ini_mugrid=ini_mugrid, fin_mugrid=fin_mugrid, overlap=overlap, same_scale_other_nf=twin)
 
     # ----------------------------------------------------------- oracle side
     A = ini_t[J][0]
